@@ -59,8 +59,13 @@ def c16_case(draw):
         "scale": draw(st.one_of(st.none(), st.none(), st.sampled_from((0.5, 1, 1.0, 0.001, 0.3333, 0.75, 1e-9)),
                                 st.sampled_from((0.5, 1.0, 0.25)), st.sampled_from((0, 0.0, -0.5, 1.5, 1.0000001, -0.0)))),
     }
+    # further option sets printed afterwards on the same parser instance (nothing may be remembered between calls)
+    more = []
+    for _ in range(draw(st.integers(0, 2))):
+        more.append({"print_model": draw(st.booleans()), "display_photos_keyword": draw(st.booleans()), "ascending": draw(st.booleans()),
+                     "normalize": draw(st.sampled_from((False, False, True))), "scale": draw(st.sampled_from((None, None, 0.5, 1.0, 0.25, 2.0)))})
     return {"stmts": [{"k": "decay", "m": mother, "lines": lines}], "layout": [], "crlf": False, "end": False,
-            "pdg_name": pdg_name, "opts": opts}
+            "pdg_name": pdg_name, "opts": opts, "more_opts": more}
 
 
 def split_row(row):
@@ -71,10 +76,14 @@ def split_row(row):
 
 def check_case(f, rec):
     text = G.render(f)
+    p = make_parser(text, ID)
+    for k, o in enumerate([f["opts"]] + list(f.get("more_opts", []))):
+        check_print(f, text, p, o, rec, first=(k == 0))
+
+
+def check_print(f, text, p, o, rec, first=True):
     mother = f["stmts"][0]["m"]
     lines = R.decay_tables(f)[mother]
-    o = f["opts"]
-    p = make_parser(text, ID)
     before = observed_tables(p, ID)
     kw = dict(print_model=o["print_model"], display_photos_keyword=o["display_photos_keyword"], ascending=o["ascending"],
               normalize=o["normalize"], scale=o["scale"])
@@ -91,13 +100,15 @@ def check_case(f, rec):
             with contextlib.redirect_stdout(io.StringIO()):
                 p.print_decay_modes(arg, **kw)
         except RuntimeError:
-            rec.case(f, False, classes + ["refused"])
+            if first:
+                rec.case(f, False, classes + ["refused"])
             return
         except Exception as e:  # noqa: BLE001
             raise Mismatch("C16:wrong-refusal", f"expected RuntimeError, got {type(e).__name__}: {e}") from e
         raise Mismatch("C16:not-refused", f"normalize={o['normalize']} scale={scale!r} was accepted", "RuntimeError", "printed")
     if (o["normalize"] or scale is not None) and max(bfs) <= 0.0:
-        rec.case(f, False, classes + ["skipped-nonpositive-table"])
+        if first:
+            rec.case(f, False, classes + ["skipped-nonpositive-table"])
         return
     out = capture_print(p, ID, arg, **kw)
     rows = [r for r in out.split("\n") if r != ""]
@@ -159,6 +170,9 @@ def check_case(f, rec):
         classes.append("mother-by-pdg-name")
     if not o["print_model"]:
         classes.append("no-model")
+    if not first:
+        rec.classes["further-print-on-same-parser"] += 1
+        return
     rec.case(f, len(lines) >= 3 and unsorted_ and nondefault, classes, sample=lambda: {"text": text, "options": kw, "stdout": out})
 
 
